@@ -397,6 +397,13 @@ func newEngine(prog *ssa.Program, cfg *Config, wq *workQueue) (*Engine, error) {
 			}
 			e.runInit(pkg)
 		}
+		// the harness' own package (its package-level tables): tolerant
+		if cfg.Entry.Pkg != nil && !e.initDone[cfg.Entry.Pkg] {
+			cfg2.InitPkgs = append(cfg2.InitPkgs, cfg.Entry.Pkg.Pkg.Path())
+			e.tolerantInit = true
+			e.runInit(cfg.Entry.Pkg)
+			e.tolerantInit = false
+		}
 	}()
 	if initErr != nil {
 		return nil, initErr
